@@ -22,6 +22,34 @@ Prods3(p1, n1, p2, x, y) == <<Dot([i \in 1..Len(x) |-> p1[i] - n1[i] + p2[i]], x
                               Dot([i \in 1..Len(x) |-> p1[i] - n1[i] + p2[i]], y)>>
 SqNormSum(x, y) == Sum([i \in 1..Len(x) |-> (x[i] + y[i]) * (x[i] + y[i])])
 
+\* ---- harmonic flows (ExactNormal integrator) ----
+\* gradient flow: vel + eps (pos + grad); eps given as e2 = 2 eps, result scaled by 2
+GradFlow2(pos, grad, vel, e2) == [i \in 1..Len(pos) |-> 2 * vel[i] + e2 * (pos[i] + grad[i])]
+\* rotation by eps with c = cos eps, s = sin eps: pos_out = pos c + vel s, vel' = -pos s + vel c.  c and s are not
+\* rational; the formula is evaluated here for integer stand-ins (the harness evaluates it in floating point for the real
+\* cos / sin and compares within 4 ulp of the two products), exact for eps = 0 (c = 1, s = 0)
+FlowPos(pos, vel, c, s) == [i \in 1..Len(pos) |-> pos[i] * c + vel[i] * s]
+FlowVel(pos, vel, c, s) == [i \in 1..Len(pos) |-> vel[i] * c - pos[i] * s]
+
+\* ---- low-rank application  (I + U (diag(vals) - I) U^T) rhs ----
+\* U with signed coordinate vectors as columns: cols[j] = <<index, sign>>; the sign cancels
+LowRankPerm(cols, vals, rhs) ==
+    [i \in 1..Len(rhs) |-> IF \E j \in 1..Len(cols) : cols[j][1] = i
+                           THEN vals[CHOOSE j \in 1..Len(cols) : cols[j][1] = i] * rhs[i] ELSE rhs[i]]
+\* U with columns 1/2 * (row j of the 4 x 4 Hadamard matrix) on the coordinates b .. b+3, js = the rows used;
+\* result scaled by 4
+H4 == << <<1, 1, 1, 1>>, <<1, -1, 1, -1>>, <<1, 1, -1, -1>>, <<1, -1, -1, 1>> >>
+HDot(j, b, rhs) == H4[j][1] * rhs[b] + H4[j][2] * rhs[b + 1] + H4[j][3] * rhs[b + 2] + H4[j][4] * rhs[b + 3]
+RECURSIVE HadSum(_, _, _, _, _, _)
+HadSum(js, vals, b, rhs, i, m) ==
+    IF m = 0 THEN 0
+    ELSE (vals[m] - 1) * HDot(js[m], b, rhs) * H4[js[m]][i - b + 1] + HadSum(js, vals, b, rhs, i, m - 1)
+LowRankHad4(js, vals, b, rhs) ==
+    [i \in 1..Len(rhs) |-> IF i >= b /\ i <= b + 3 THEN 4 * rhs[i] + HadSum(js, vals, b, rhs, i, Len(js)) ELSE 4 * rhs[i]]
+\* array_mult_eigs: D (I + U (diag(vals) - I) U^T) D rhs with D = diag(stds); Hadamard columns, scaled by 4
+Scale(stds, v) == [i \in 1..Len(v) |-> stds[i] * v[i]]
+MultEigsHad4(stds, js, vals, b, rhs) == Scale(stds, LowRankHad4(js, vals, b, Scale(stds, rhs)))
+
 \* ---- special values: class of a result when x[k] is special and everything else finite ----
 \* classes: "fin", "nan", "pinf", "ninf"
 Sgn(v) == IF v > 0 THEN 1 ELSE IF v < 0 THEN -1 ELSE 0
@@ -36,6 +64,12 @@ DotClass(sp, yk) == MulClass(sp, yk)
 AxpyClass(sp, a2) == MulClass(sp, a2)
 \* (x + y)^2
 SqClass(sp) == IF sp = "nan" THEN "nan" ELSE "pinf"
+\* rotation with a special value at pos[k] (everything else finite): sc, ss = signs of cos eps, sin eps
+\*   pos_out[k] = special * c + finite, vel'[k] = special * (-s) + finite
+FlowPosClass(sp, sc) == MulClass(sp, sc)
+FlowVelClass(sp, ss) == MulClass(sp, -ss)
+\* gradient flow with a special value at pos[k]: vel[k] + eps * (special + finite)
+GradFlowClass(sp, e2) == MulClass(sp, e2)
 \* ---- the finiteness tests, by class of the one unusual element (everything else normal, finite, non-zero) ----
 \* "sub" is a subnormal number: finite and not zero
 \* "huge" / "max": finite numbers whose square is not (1e200, the largest double)
